@@ -396,7 +396,13 @@ def main(argv):
 
     # ---- 4. correspondence + statement oracle ---------------------------------------------------
     cases = [detuple(c) for c in cases]
-    results = run_cases(pid, cases, workdir) if cases else []
+    def chunked_results():
+        # the implementation's results (whole waveforms) are kept only for one chunk of cases at a time: the thorough
+        # tier runs ten thousand programs, some with 100 000-sample channels
+        CH = 1500
+        for i in range(0, len(cases), CH):
+            part = cases[i:i + CH]
+            yield from zip(part, run_cases(pid, part, workdir if i == 0 else os.path.join(workdir, f"chunk{i // CH}")))
     oracle = getattr(mod, "oracle", None)
     n_diff = 0
     seen_sig = set()
@@ -404,7 +410,7 @@ def main(argv):
     dist = {}
     op_counts, err_kinds, prog_sizes = {}, {}, []
     n_dust = 0
-    for c, (im, mo, diffs) in zip(cases, results):
+    for c, (im, mo, diffs) in chunked_results():
         k = mod.nontrivial_key(c, im) if hasattr(mod, "nontrivial_key") and not c.get("followup") else None
         if k is not None:
             keys.add(k)
